@@ -159,6 +159,14 @@ reg("C17", "exploration",
     "specificity; every case runs under a watchdog. Sampling.",
     BASE_NOTE + "Brute force enumerates <= 7! sequences; factories are deterministic.", "DESIGN.md 3/C17")
 
+reg("C20", "exploration",
+    "Hypothesis link/assignment/mutation histories vs a directed-edge model that simulates the documented propagation (change detection, re-entrancy lock, rejecting partners)",
+    "Generated histories over three objects with scalar, bounded and list traits: sync_trait mutual/one-way with aliases and "
+    "several partners, remove=True, scalar and list assignments, 16 list mutators incl. extended slices, partner collection; "
+    "after every step every attribute is compared with the model (convergence of linked attributes, no change of unlinked "
+    "ones), no exception may be raised or reach the notification exception handler, handlers fire at most once per step. Sampling.",
+    BASE_NOTE, "DESIGN.md 3/C20")
+
 
 def main():
     props = [json.loads(l) for l in open(os.path.join(ROOT, "properties.jsonl"))]
